@@ -14,7 +14,7 @@ import (
 func init() {
 	register(&Prop{
 		ID:          "C14",
-		Explanation: "Decides that identity-provider failures cannot yield a session by code shape: every saving path of the callback has redeemCode's error nil, the saved session is redeemCode's and enrichSessionState(session) returned nil; redeemCode returns a session only when provider.Redeem's error was nil; after a stale session's refresh attempt the result is validateSession's verdict (not-expired and provider validation), shared with C12.R4; at every call site of a Provider method (Redeem, EnrichSession, RefreshSession, ValidateSession, Authorize, CreateSessionFromToken, GetEmailAddress) the error result is returned/converted to a non-nil error or examined by a branch, and the boolean/session result is used; OIDC createSession tolerates a failed ID-token verification only for refresh with ErrMissingIDToken; and in all provider, claim-extraction and request packages reachable from ServeHTTP every unchecked type assertion, explicit panic, compiler-unproven index/slice and decoder-filled pointer used without a nil test is guarded or reviewed (the panic-source enumeration of C19 restricted to code that handles identity-provider data). Added during the build: createSession failure clauses (R5); provider code never finds a module callee's error non-nil and then returns success, reviewed fallbacks listed (R6); validateToken answers true only for a non-empty token, an error-free request and status 200 (R7); result-before-error-check dereferences in provider code (under R4). Round 3: bearer sessions only with a typed email_verified absent or true (R8); GitHub's isCollaborator pairs a nil error only with a true verdict (R9). Round 4: the HTTP helper all provider calls go through hands back a Result without error only when building, sending and completely reading the exchange all returned no error (R10).",
+		Explanation: "Decides that identity-provider failures cannot yield a session by code shape: every saving path of the callback has redeemCode's error nil, the saved session is redeemCode's and enrichSessionState(session) returned nil; redeemCode returns a session only when provider.Redeem's error was nil; after a stale session's refresh attempt the result is validateSession's verdict (not-expired and provider validation), shared with C12.R4; at every call site of a Provider method (Redeem, EnrichSession, RefreshSession, ValidateSession, Authorize, CreateSessionFromToken, GetEmailAddress) the error result is returned/converted to a non-nil error or examined by a branch, and the boolean/session result is used; OIDC createSession tolerates a failed ID-token verification only for refresh with ErrMissingIDToken; and in all provider, claim-extraction and request packages reachable from ServeHTTP every unchecked type assertion, explicit panic, compiler-unproven index/slice and decoder-filled pointer used without a nil test is guarded or reviewed (the panic-source enumeration of C19 restricted to code that handles identity-provider data). Added during the build: createSession failure clauses (R5); provider code never finds a module callee's error non-nil and then returns success, reviewed fallbacks listed (R6); validateToken answers true only for a non-empty token, an error-free request and status 200 (R7); result-before-error-check dereferences in provider code (under R4). Round 3: bearer sessions only with a typed email_verified absent or true (R8); GitHub's isCollaborator pairs a nil error only with a true verdict (R9). Round 4: the HTTP helper all provider calls go through hands back a Result without error only when building, sending and completely reading the exchange all returned no error (R10). Round 5: every local structure an identity-provider response is decoded into is still zero at the decode call (R11).",
 		NotDecided:  "time-outs, oversized bodies and other resource behaviour; panics inside third-party decoders (go-oidc, jose, simplejson) on hostile bytes.",
 		Run:         runC14,
 	})
@@ -29,6 +29,7 @@ func runC14(c *Ctx) {
 	r.Rule("R8-bearer-email-verified", "bearer sessions only with email_verified absent or true after typed decoding (shared with C04.R4)", 1)
 	r.Rule("R9-github-collaborator-verdict", "isCollaborator pairs a nil error only with a true verdict (its caller returns the error when the verdict is false)", 1)
 	r.Rule("R10-transport-failure-is-error", "the HTTP helper all provider calls go through hands back a Result without error only when building, sending and completely reading the exchange all returned no error", 1)
+	r.Rule("R11-decode-target-zeroed", "every structure an identity-provider response is decoded into starts zeroed: a field the response leaves out reads as absent, never as a value of the old session", 15)
 	r.Rule("R7-validate-token", "validateToken true => token non-empty, request error-free, status 200", 1)
 	r.Rule("R4-panic-sources", "no unguarded panic source on decoded identity-provider data in request-reachable provider code", 8)
 	r.Rule("R5-verification-failures", "createSession tolerates a verification failure only for refresh && ErrMissingIDToken", 2)
@@ -166,6 +167,7 @@ func runC14(c *Ctx) {
 	runBearerEmailVerified(c, "R8-bearer-email-verified")
 	runC14R9(c, "R9-github-collaborator-verdict")
 	runC14R10(c, "R10-transport-failure-is-error")
+	runC14R11(c, "R11-decode-target-zeroed")
 
 	// ---- R4 ---------------------------------------------------------------------------------
 	rule = "R4-panic-sources"
@@ -455,5 +457,111 @@ func runC14R10(c *Ctx, rule string) {
 		c.R.OK(rule, key, c.P.Pos(do.Pos()), sprintf("%d return path(s): a Result without err only when every fallible step returned nil", n))
 	} else if !bad {
 		c.R.Unknown(rule, key, c.P.Pos(do.Pos()), "no return path found")
+	}
+}
+
+// runC14R11: the JSON decoders leave fields alone that the document does not mention. Provider code tells "the
+// response carried no access_token / id_token / email" by the zero value of the decoded field, so every local
+// structure handed to (*requests.result).UnmarshalInto, json.Unmarshal or (*json.Decoder).Decode in provider code
+// must still be zero at that point: no store into it (or into one of its fields) dominates the decode call. A target
+// pre-filled from the session turns a malformed 200 answer into "refreshed, same tokens, new lifetime".
+func runC14R11(c *Ctx, rule string) {
+	isDecode := func(cc *ssa.CallCommon) int {
+		if cc.IsInvoke() {
+			if cc.Method.Name() == "UnmarshalInto" {
+				return 0
+			}
+			return -1
+		}
+		sc := cc.StaticCallee()
+		if sc == nil {
+			return -1
+		}
+		switch {
+		case sc.Name() == "UnmarshalInto":
+			return 1
+		case sc.String() == "encoding/json.Unmarshal":
+			return 1
+		case sc.String() == "(*encoding/json.Decoder).Decode":
+			return 1
+		}
+		return -1
+	}
+	n := 0
+	for _, fn := range c.P.ModFns {
+		pk := prog.Short(prog.FnPkg(fn).Path())
+		if pk != "providers" && !strings.HasPrefix(pk, "pkg/providers") {
+			continue
+		}
+		for _, b := range fn.Blocks {
+			for idx, in := range b.Instrs {
+				call, ok := in.(*ssa.Call)
+				if !ok {
+					continue
+				}
+				ai := isDecode(&call.Call)
+				if ai < 0 || ai >= len(call.Call.Args) {
+					continue
+				}
+				t := unwrap0(call.Call.Args[ai])
+				if mi, ok := t.(*ssa.MakeInterface); ok {
+					t = unwrap0(mi.X)
+				}
+				al, ok := t.(*ssa.Alloc)
+				if !ok {
+					continue // a parameter or field: the caller's object, judged where it is allocated
+				}
+				n++
+				key := "decode-target|" + fnKey(fn)
+				var pre ssa.Instruction
+				var visit func(addr ssa.Value, depth int)
+				visit = func(addr ssa.Value, depth int) {
+					if depth > 3 || addr.Referrers() == nil {
+						return
+					}
+					for _, r := range *addr.Referrers() {
+						switch x := r.(type) {
+						case *ssa.Store:
+							if x.Addr != addr {
+								continue
+							}
+							if k, isConst := x.Val.(*ssa.Const); isConst && (k.Value == nil || k.IsNil()) {
+								continue // explicit zeroing
+							}
+							if _, isMap := x.Val.(*ssa.MakeMap); isMap {
+								continue // an empty map to decode into
+							}
+							sb := x.Block()
+							before := false
+							if sb == b {
+								for j := 0; j < idx; j++ {
+									if b.Instrs[j] == ssa.Instruction(x) {
+										before = true
+									}
+								}
+							} else if sb.Dominates(b) {
+								before = true
+							}
+							if before {
+								pre = x
+							}
+						case *ssa.FieldAddr:
+							visit(x, depth+1)
+						case *ssa.IndexAddr:
+							visit(x, depth+1)
+						}
+					}
+				}
+				visit(al, 0)
+				if pre == nil {
+					c.ok(rule, key, in, "decoded into a zero local")
+				} else {
+					c.R.Bad(rule, key, c.pos(pre), "the structure an identity-provider response is decoded into is filled in before decoding: a field the response omits keeps that value, so a malformed answer (no access_token) is taken for a complete one and the session is re-issued with the old token", nil, nil)
+				}
+			}
+		}
+	}
+	if n == 0 {
+		c.R.Unknown(rule, "decode-target|none", "-", "no decode of an identity-provider response into a local found")
 	}
 }
